@@ -69,11 +69,30 @@ Definition run_site (cases : list site_case) : list N :=
 (* ---------- (iii) predicted verdict for a position feeding sites ns with text t *)
 Definition ws_to_sp (t : str) : str := map (fun c => if doc_ws c then 32 else c) t.
 Definition block_line (t : str) : str := site_block_line t.
+(* a docstring statement may be several adjacent literals on one logical line (implicit concatenation), e.g. the
+   text of seven quotes inside QQQ...QQQ: still one expression statement made of string-literal content only *)
+Fixpoint skip_sp (s : str) : str := match s with c :: r => if (c =? 32) || (c =? 9) then skip_sp r else s | [] => [] end.
+Fixpoint lex_concat (fuel : nat) (s : str) : bool :=
+  match fuel with
+  | O => false
+  | S f => match lex_str s with
+           | Some (_, rest) => match skip_sp rest with
+                               | [] => true
+                               | c :: r => if c =? 34 then lex_concat f (c :: r) else false
+                               end
+           | None => false
+           end
+  end.
+Definition inert_doc_b (out : str) : bool := match out with [] => true | _ => lex_concat (S (length out)) out end.
 Definition site_pred (n : N) (t : str) : bool :=
   match site_fn n with
   | Some f =>
       if n =? 9 then inert_doc_b (f t)
-      else if n =? 10 then single_physical_line (f t)
+      else if n =? 10 then   (* the comment followed by the line's LF: one physical line (a final CR joins the LF) *)
+        match lex_comment (skipn 2 (f t) ++ [10]) with
+        | Some (_, rest) => str_eqb rest [10] || str_eqb rest [13; 10]
+        | None => false
+        end
       else inert_dq_b f t
   | None =>
       if n =? 12 then inert_doc_b (block_line (ws_to_sp t))
